@@ -1068,7 +1068,7 @@ func renderVariableString(text string, ctx *RenderContext, w io.Writer) error {
 
 				// Extract filter arguments if any
 				filterNameAndArgs := strings.SplitN(filterName, ":", 2)
-				filterName = filterNameAndArgs[0]
+				filterName = strings.TrimSpace(filterNameAndArgs[0])
 
 				// Apply the filter
 				var filterArgs []interface{}
@@ -1085,8 +1085,10 @@ func renderVariableString(text string, ctx *RenderContext, w io.Writer) error {
 				if ctx.env != nil {
 					varValue, err = ctx.ApplyFilter(filterName, baseValue, filterArgs...)
 					if err != nil {
-						// Fall back to the unfiltered value
-						varValue = baseValue
+						// A filter that cannot be applied (unknown name, a chain or a
+						// call this simple form does not read) is an error: writing the
+						// unfiltered value instead would drop an escape silently
+						return err
 					}
 				} else {
 					varValue = baseValue
